@@ -211,6 +211,8 @@ def run(ctx):
     if n2:
         r.ok(rule2, 'summary', 'field decoder types equal the declared field types in %d decoder instances' % n2)
     r.floor(rule2, 'decoder_instances_checked', n2, 150)
+    mask_agreement(ctx)
+    r.floor('mask-agreement', 'mask_combinations', r.counts.get('mask_combinations', 0), 192)
     # (c) Variant::decode: the empty-array path looks at the dimensions bit
     rule3 = 'variant-dimensions-bit'
     vb = db.find_bodies(r'^<types::variant::Variant as types::encoding::BinaryEncoder<types::variant::Variant>>::decode$')
@@ -239,3 +241,136 @@ def run(ctx):
             r.fail(rule3, 'Variant::decode:array-paths', 'an array is accepted on a path that never examined ARRAY_DIMENSIONS_BIT although the encoder writes dimensions whenever they are present (stream desync)', loc=bad[0].loc)
         else:
             r.ok(rule3, 'Variant::decode:array-paths', 'every array-producing path examined ARRAY_DIMENSIONS_BIT (the null array, length -1, excepted: the encoder never emits it)', loc=b.loc)
+
+
+# ------------------------------------------------------------------ (d) mask-driven codecs
+MASKED = [
+    # (type path, mask function)
+    ('types::data_value::DataValue', 'types::data_value::DataValue::encoding_mask'),
+    ('types::diagnostic_info::DiagnosticInfo', 'types::diagnostic_info::DiagnosticInfo::encoding_mask'),
+]
+WIRE_FN = re.compile(r'^types::encoding::(write|read)_(u8|i8|u16|i16|u32|i32|u64|i64|f32|f64)$')
+
+
+def _self_field_in(sym):
+    """name of the field of *self (local 1) a sym mentions, else None"""
+    if isinstance(sym, tuple):
+        if sym and sym[0] == 'place' and sym[1] == 1 and len(sym[2]) >= 2 and sym[2][0] == '*' and isinstance(sym[2][1], str) and sym[2][1].startswith('.'):
+            return sym[2][1][1:]
+        for x in sym:
+            f = _self_field_in(x)
+            if f:
+                return f
+    return None
+
+
+def _conds(body, F, bb):
+    """(flags required set, presence atoms {(field, True/False)}) that dominate block bb"""
+    flags = set(); pres = set(); other = []
+    for lit, e in F.literals_at(bb):
+        if lit[0] == 'truth' and lit[1][0] == 'call' and lit[1][1].endswith('::contains') and len(lit[1][2]) == 2 and lit[1][2][1][0] == 'k':
+            flags.add((lit[1][2][1][1].rsplit('::', 1)[-1], lit[2]))
+        elif lit[0] == 'variant' and lit[2] in ('Some', 'None'):
+            f = _self_field_in(lit[1])
+            if f and lit[1][0] == 'place':
+                pres.add((f, (lit[2] == 'Some') == lit[3]))
+    return flags, pres
+
+
+def _wire_type(c):
+    m = WIRE_FN.match(c.callee)
+    if m:
+        return m.group(2)
+    m = re.match(r'^<(.+) as types::encoding::BinaryEncoder<', c.callee_full)
+    if m:
+        t = m.group(1)
+        t = re.sub(r'^std::boxed::Box<(.+)>$', r'\1', t)
+        return t
+    return None
+
+
+def mask_agreement(ctx, rule='mask-agreement'):
+    """For the codecs whose optional fields are announced by an encoding mask: enumerate every combination of present /
+    absent optional fields, compute the mask encoding_mask() would produce from the conditions that dominate its
+    `|= FLAG` sites, and require that the sequence of wire types encode writes under that mask and field presence equals
+    the sequence decode reads under that mask, and that byte_len sizes the same fields."""
+    import itertools
+    r, db = ctx.r, ctx.db
+    for ty, maskfn in MASKED:
+        short = ty.rsplit('::', 1)[-1]
+        mb = db.body(maskfn)
+        enc = db.find_bodies(r'^<%s as types::encoding::BinaryEncoder<%s>>::encode$' % (re.escape(ty), re.escape(ty)))
+        dec = db.find_bodies(r'^<%s as types::encoding::BinaryEncoder<%s>>::decode$' % (re.escape(ty), re.escape(ty)))
+        bl = db.find_bodies(r'^<%s as types::encoding::BinaryEncoder<%s>>::byte_len$' % (re.escape(ty), re.escape(ty)))
+        if not (mb and enc and dec and bl):
+            r.lost(rule, short, 'encoding_mask / encode / decode / byte_len of %s not found' % short); continue
+        enc, dec, bl = enc[0], dec[0], bl[0]
+        # mask: flag -> list of presence conjunctions
+        Fm = ctx.facts(mb)
+        mask_sites = {}
+        for c in mb.calls():
+            if c.callee.endswith('bitor_assign') and len(c.args) == 2 and c.args[1][0] == 'k':
+                flag = c.args[1][1].rsplit('::', 1)[-1]
+                fl, pres = _conds(mb, Fm, c.bb)
+                mask_sites.setdefault(flag, []).append(pres)
+        if len(mask_sites) < 3:
+            r.lost(rule, short + ':mask', 'flag sites of %s not recognised' % maskfn); continue
+        fields = sorted({f for sites in mask_sites.values() for pres in sites for f, _ in pres})
+        def seq_of(body, pick):
+            F = ctx.facts(body)
+            order = {b_: i for i, b_ in enumerate(rpo(body))}
+            out = []
+            for c in sorted([c for c in body.calls() if c.bb in order], key=lambda c: order[c.bb]):
+                it = pick(body, F, c)
+                if it is not None:
+                    fl, pres = _conds(body, F, c.bb)
+                    out.append((it, fl, pres))
+            return out
+        def pick_enc(body, F, c):
+            if (c.callee.endswith('BinaryEncoder::encode') or WIRE_FN.match(c.callee) and '::write_' in c.callee):
+                return _wire_type(c)
+            return None
+        def pick_dec(body, F, c):
+            if (c.callee.endswith('BinaryEncoder::decode') or WIRE_FN.match(c.callee) and '::read_' in c.callee):
+                return _wire_type(c)
+            return None
+        def pick_len(body, F, c):
+            if c.callee.endswith('BinaryEncoder::byte_len') and c.args:
+                return _self_field_in(F.sym_operand(c.args[0])) or '?'
+            return None
+        eseq = seq_of(enc, pick_enc); dseq = seq_of(dec, pick_dec); lseq = seq_of(bl, pick_len)
+        # field written by each encode call (for the byte_len comparison)
+        Fe = ctx.facts(enc)
+        order = {b_: i for i, b_ in enumerate(rpo(enc))}
+        efields = []
+        for c in sorted([c for c in enc.calls() if c.bb in order], key=lambda c: order[c.bb]):
+            if pick_enc(enc, Fe, c) is not None:
+                f = None
+                for a in c.args:
+                    f = f or _self_field_in(Fe.sym_operand(a))
+                fl, pres = _conds(enc, Fe, c.bb)
+                efields.append((f, fl, pres))
+        if len(eseq) < 3 or len(dseq) < 3:
+            r.lost(rule, short + ':codec', 'codec calls of %s not recognised (encode %d, decode %d)' % (short, len(eseq), len(dseq))); continue
+        bad = None; combos = 0
+        for bits in itertools.product((False, True), repeat=len(fields)):
+            P = dict(zip(fields, bits)); combos += 1
+            mask = {flag for flag, sites in mask_sites.items() if any(all(P.get(f) == v for f, v in pres) for pres in sites)}
+            def active(fl, pres):
+                return all((f in mask) == want for f, want in fl) and all(P.get(f, None) in (v, None) for f, v in pres)
+            w = [t for t, fl, pres in eseq if active(fl, pres)]
+            rd = [t for t, fl, pres in dseq if active(fl, set())]
+            ws = [f for f, fl, pres in efields if active(fl, pres) and f]
+            ls = [f for f, fl, pres in lseq if active(fl, pres)]
+            if w != rd:
+                bad = ('with %s present the mask is {%s}; encode writes [%s] but decode reads [%s]' %
+                       (sorted(f for f, v in P.items() if v), ', '.join(sorted(mask)), ', '.join(x.rsplit('::', 1)[-1] for x in w), ', '.join(x.rsplit('::', 1)[-1] for x in rd)))
+                break
+            if ws != ls:
+                bad = ('with %s present encode writes fields %s but byte_len sizes %s' % (sorted(f for f, v in P.items() if v), ws, ls))
+                break
+        r.count('mask_combinations', r.counts.get('mask_combinations', 0) + combos)
+        if bad:
+            r.fail(rule, short, 'mask-driven codec of %s disagrees: %s (the stream desynchronises for such a value)' % (short, bad), loc=enc.loc)
+        else:
+            r.ok(rule, short, '%s: for all %d presence combinations of %d optional fields, encode/decode agree on the wire type sequence and byte_len on the fields' % (short, combos, len(fields)), loc=enc.loc)
